@@ -153,6 +153,11 @@ func (s *Sweep) Case(entry, desc string, sharded, store bool, prep func() ([]byt
 		if grace > 200*time.Second {
 			grace = 200 * time.Second
 		}
+		if _, micro := s.EntryDeadline[entry]; micro {
+			// entry points whose normal cost is far below their (already shortened) deadline: a fixed grace keeps the
+			// tier inside its budget while a real non-termination is present; the stall check below still applies
+			grace = 6 * deadline
+		}
 		res, finished = running.Wait(grace)
 		if finished {
 			s.R.Observation("slow-call:"+entry, map[string]any{"desc": desc, "seconds": res.Elapsed.Seconds(), "calibration_ms": cal.Seconds() * 1000})
